@@ -111,10 +111,12 @@ pub fn run(o: &Opts) -> Report {
         one(&mut drv, &mut rep, &parse_list::<u32>(p[2]), p[1].parse().unwrap(), "replay");
         return rep;
     }
-    rep.rule = "frequency vectors: ALL vectors over alphabets of 2..5 symbols with frequencies 0..4 (0..5 thorough) at limits 2..4; for the real alphabets (16 symbols/limit 7, 256/15, 280/15): Fibonacci, geometric (ratio 2 and 3), one dominant symbol, all equal, two-level ties, Zipf-like, sparse random, uniform random, near-u32 totals; output compared with EncHuff.build (up to the unspecified tie order of sort_unstable), and the property's clauses evaluated on the real output incl. decoding every code word with the crate's decoder. distinct_nontrivial = distinct vectors with at least two used symbols".into();
+    rep.rule = "frequency vectors: ALL vectors over alphabets of 2..5 symbols with frequencies 0..4 (0..5 thorough), 6 symbols with 0..3, 7..8 symbols with 0..2, at limits 2..4; for the real alphabets (16 symbols/limit 7, 256/15, 280/15): Fibonacci, geometric (ratio 2 and 3), one dominant symbol, all equal, two-level ties, Zipf-like, sparse random, uniform random, near-u32 totals; output compared with EncHuff.build (up to the unspecified tie order of sort_unstable), and the property's clauses evaluated on the real output incl. decoding every code word with the crate's decoder. distinct_nontrivial = distinct vectors with at least two used symbols".into();
     // exhaustive small alphabets
     let fmax: u32 = if o.thorough() { 5 } else { 4 };
-    for n in 2..=5usize {
+    for n in 2..=8usize {
+        // alphabets of 6 symbols: frequencies 0..3; 7 and 8 symbols: 0..2 (ties at the minimum)
+        let fmax: u32 = if n <= 5 { fmax } else if n == 6 { 3 } else { 2 };
         let total = (fmax as usize + 1).pow(n as u32);
         for code in 0..total {
             let mut c = code;
@@ -129,7 +131,7 @@ pub fn run(o: &Opts) -> Report {
         }
     }
     rep.exhaustive = true;
-    rep.exhaustive_note = format!("all frequency vectors over 2..5 symbols with frequencies 0..{fmax} at limits 2,3,4");
+    rep.exhaustive_note = format!("all frequency vectors over 2..5 symbols with frequencies 0..{fmax}, 6 symbols 0..3, 7-8 symbols 0..2, at limits 2,3,4");
     // families on the real alphabets
     let mut rng = Rng::new(o.seed ^ 0xC14);
     let reps = if o.thorough() { 60 } else { 8 };
@@ -155,6 +157,32 @@ pub fn run(o: &Opts) -> Report {
                 }
             }
             fams.push(("fibonacci", fib));
+            // Fibonacci with a tie at the minimum (1,1,1,2,3,5,...) in ascending, descending and
+            // random symbol order, of every length that brings the optimal depth near the limit
+            for order in 0..3 {
+                let len = if n == 16 { rng.range(6, 16) as usize } else { rng.range(12, 26) as usize };
+                let mut vals: Vec<u32> = vec![1, 1, 1];
+                let (mut a, mut b) = (2u64, 3u64);
+                while vals.len() < len {
+                    vals.push(a as u32);
+                    let c = a + b;
+                    a = b;
+                    b = c;
+                }
+                match order {
+                    0 => {}
+                    1 => vals.reverse(),
+                    _ => {
+                        for i in (1..vals.len()).rev() {
+                            vals.swap(i, rng.below(i as u64 + 1) as usize);
+                        }
+                    }
+                }
+                let mut f = vec![0u32; n];
+                let start = rng.below((n - len) as u64 + 1) as usize;
+                f[start..start + len].copy_from_slice(&vals);
+                fams.push((["fib_min_ties_ascending", "fib_min_ties_descending", "fib_min_ties_shuffled"][order], f));
+            }
             for ratio in [2u64, 3] {
                 let mut g = vec![0u32; n];
                 let mut v = 1u64;
